@@ -43,6 +43,12 @@ def meta(pid, functions=(), rule='', level='other', trusted=(), unverified=(), e
             'unverified': list(unverified), 'exhaustive': exhaustive}
 
 
+def thorough(n):
+    """size of the seeded family of the thorough tier (VERIF_THOROUGH_SCALE times the base size; default 4)"""
+    import os
+    return n * max(1, int(os.environ.get('VERIF_THOROUGH_SCALE', '4')))
+
+
 def extra_tasks(pid, tier, seed):
     """E1 / E2 tasks registered for this property (modules are optional while the framework grows)"""
     out = []
